@@ -18,6 +18,7 @@ import (
 	"net"
 	"net/netip"
 	"os"
+	"reflect"
 	"runtime"
 	"sort"
 	"strconv"
@@ -784,9 +785,16 @@ func c20Server(c c20Case, res map[string]any) {
 	// both registries, read directly, against the shadow registry
 	checkRegs := func(oi int) {
 		wrapped.mu.RLock()
+		// read through reflection: the registry's value type is an internal representation (PunchMetadata today;
+		// a struct caching decoded keys next to it would be just as good) - only ids and the metadata are compared
 		onConn := make(map[string]PunchMetadata, len(wrapped.attempts))
-		for id, m := range wrapped.attempts {
-			onConn[id] = m
+		metaKnown := true
+		for it := reflect.ValueOf(wrapped.attempts).MapRange(); it.Next(); {
+			m, ok := vC20MetaOf(it.Value())
+			if !ok {
+				metaKnown = false
+			}
+			onConn[it.Key().String()] = m
 		}
 		wrapped.mu.RUnlock()
 		sp.mu.Lock()
@@ -806,7 +814,7 @@ func c20Server(c c20Case, res map[string]any) {
 				fail(fmt.Sprintf("op %d: after %s its attempt %q is still registered on the PunchPacketConn", oi, g.how, id))
 			} else if !reg {
 				fail(fmt.Sprintf("op %d: attempt %q is registered on the PunchPacketConn although no call in progress registered it", oi, id))
-			} else if sm != onConn[id] {
+			} else if metaKnown && sm != onConn[id] {
 				fail(fmt.Sprintf("op %d: attempt %q is registered on the PunchPacketConn under other metadata than its call passed", oi, id))
 			}
 		}
@@ -1315,4 +1323,45 @@ func c20Conc(c c20Case, res map[string]any) {
 	res["ok"] = ok
 	res["why"] = why
 	_ = os.Stderr
+}
+
+
+// vC20MetaOf extracts the PunchMetadata of a registry entry whatever the entry's representation is: the value itself,
+// a pointer to it, or a struct (or pointer to struct) with exactly one field of type PunchMetadata.
+func vC20MetaOf(v reflect.Value) (PunchMetadata, bool) {
+	mt := reflect.TypeOf(PunchMetadata{})
+	for v.Kind() == reflect.Pointer || v.Kind() == reflect.Interface {
+		if v.IsNil() {
+			return PunchMetadata{}, false
+		}
+		v = v.Elem()
+	}
+	read := func(x reflect.Value) PunchMetadata {
+		var m PunchMetadata
+		mv := reflect.ValueOf(&m).Elem()
+		for i := 0; i < mt.NumField(); i++ {
+			if mt.Field(i).Type.Kind() == reflect.String {
+				mv.Field(i).SetString(x.Field(i).String())
+			}
+		}
+		return m
+	}
+	if v.Type() == mt {
+		return read(v), true
+	}
+	if v.Kind() == reflect.Struct {
+		found := -1
+		for i := 0; i < v.NumField(); i++ {
+			if v.Field(i).Type() == mt {
+				if found >= 0 {
+					return PunchMetadata{}, false
+				}
+				found = i
+			}
+		}
+		if found >= 0 {
+			return read(v.Field(found)), true
+		}
+	}
+	return PunchMetadata{}, false
 }
